@@ -249,8 +249,32 @@ def run_ods_rows(model, ch, document, sheet):
             return NotImplemented
         return NotImplemented
 
-    interp = Interp(model, ch, stubs={"cutplace.rowio.ods_rows.ods_content_root": content_root},
-                    externals={"iterate": iterate_hook, "len": len_hook, "binop": binop_hook, "subscript": subscript_hook, "os.path.basename": lambda i, a, k: "x"})
+    # the container: whatever helper opens the archive and parses content.xml, it ends with the root of the tree that
+    # xml.etree.ElementTree.parse returned for the bytes of the member "content.xml"
+    content = Opaque("bytes", True, ["<content.xml>"])
+    archive = Obj("zipfile.ZipFile", {"read": stub(lambda i, a, k: content), "close": stub(lambda i, a, k: None)}, label="archive")
+    tree = Obj("xml.etree.ElementTree.ElementTree", {"getroot": stub(lambda i, a, k: root)}, label="tree")
+
+    def with_hook(interp_, args, kwargs):
+        (manager,) = args
+        return manager, (lambda exc: None)
+
+    def bytes_io(interp_, args, kwargs):
+        return Obj("io.BytesIO", {"content": args[0] if args else None}, label="xml stream")
+
+    def parse(interp_, args, kwargs):
+        source = args[0] if args else None
+        if isinstance(source, Obj) and source.attrs.get("content") is content or source is content:
+            return tree
+        raise Undecided("ElementTree.parse(%r)" % (source,))
+
+    stubs = {}
+    if "cutplace.rowio.ods_rows.ods_content_root" in model.functions:
+        stubs["cutplace.rowio.ods_rows.ods_content_root"] = content_root
+    interp = Interp(model, ch, stubs=stubs,
+                    externals={"zipfile.ZipFile": lambda i, a, k: archive, "contextlib.closing": lambda i, a, k: a[0], "with": with_hook,
+                               "io.BytesIO": bytes_io, "xml.etree.ElementTree.parse": parse,
+                               "iterate": iterate_hook, "len": len_hook, "binop": binop_hook, "subscript": subscript_hook, "os.path.basename": lambda i, a, k: "x"})
     rows = []
     try:
         generator = interp.call_function(model.func("cutplace.rowio.ods_rows"), ["book.ods", sheet], {}, None)
